@@ -178,6 +178,7 @@ func C15(c *core.Ctx) {
 	// a custom ReadHandler that rejects a healthy message while the peer keeps talking: Listen goes on
 	// (or returns) but the reader must still end, the connection must still close promptly
 	c15HandlerRejects(c)
+	c15HandlerCloses(c)
 	// no reader goroutine is left behind
 	time.Sleep(50 * time.Millisecond)
 	if left := runtime.NumGoroutine() - base; left > 2 {
@@ -400,6 +401,60 @@ func c15HandlerRejects(c *core.Ctx) {
 				}
 			}
 		}
+	}
+}
+
+// c15HandlerCloses: the application's ReadHandler calls Close() while handling a HEALTHY message (a "quit" command
+// in the payload); meanwhile the peer's own close frame (or a failure) has already been read by the read loop,
+// which is waiting to hand it over.  Close must return within the close deadline, Listen must return.
+func c15HandlerCloses(c *core.Ctx) {
+	for si, sc := range [][]string{{"d", "c1000"}, {"d", "c1001"}, {"d", "n"}, {"d", "d", "c1000"}, {"d"}} {
+		ec := fakes.NewExtConn()
+		ec.Script = peer(sc...)
+		ec.CloseFrameOK = true
+		closeRes := make(chan error, 1)
+		var closeDur time.Duration
+		var once sync.Once
+		conn, err := ws.NewConnection(ec, ws.ConnectionOptions{CloseDeadline: wsCloseDeadline,
+			ReadHandler: func(cn ws.Connection, _ int, _ []byte, err error) error {
+				if err != nil {
+					_ = cn.Close()
+					return err
+				}
+				once.Do(func() {
+					time.Sleep(30 * time.Millisecond) // the read loop has read what the peer sent next and waits to hand it over
+					t0 := time.Now()
+					e := cn.Close()
+					closeDur = time.Since(t0)
+					closeRes <- e
+				})
+				return nil
+			}})
+		if err != nil {
+			panic(err)
+		}
+		res := make(chan error, 1)
+		go func() { res <- conn.Listen() }()
+		replay := map[string]interface{}{"peer": strings.Join(sc, ","), "handler": "calls Close() while handling the first data message"}
+		select {
+		case <-res:
+		case <-time.After(wsCloseDeadline + 2*time.Second):
+			c.Violation("judge-go", "c15-listen-hangs", "Listen did not return although its handler closed the connection", replay)
+			_ = ec.Close()
+		}
+		select {
+		case <-closeRes:
+			if closeDur > wsCloseDeadline+250*time.Millisecond {
+				c.Violation("judge-go", "c15-slow-close", fmt.Sprintf("Close (called from the ReadHandler) took %v with a close deadline of %v", closeDur, wsCloseDeadline), replay)
+			}
+		case <-time.After(time.Second):
+			c.Violation("judge-go", "c15-slow-close", "Close called from the ReadHandler did not return", replay)
+		}
+		if n := ec.NumCloses(); n != 1 {
+			c.Violation("judge-go", "c15-underlying-close", fmt.Sprintf("the underlying connection was closed %d times", n), replay)
+		}
+		c.Eval()
+		c.Hist(fmt.Sprintf("handler closes on a data message, peer script %d", si))
 	}
 }
 
